@@ -64,6 +64,7 @@ func c11Shapes() []c11Shape {
 		{"string", func() *rt.Node { return rt.Str("k") }, "k", func() *rt.Node { return Id("k") }, false},
 		{"underscore", func() *rt.Node { return Id("_") }, "message", func() *rt.Node { return Id("_") }, false},
 		{"attr", func() *rt.Node { return rt.Attr(Id("k"), Id("sub")) }, "k.sub", func() *rt.Node { return rt.QId("k.sub") }, false},
+		{"attr-index", func() *rt.Node { return rt.Attr(Id("k"), rt.Index("sub", rt.Int(0))) }, "k.sub[0]", func() *rt.Node { return rt.QId("k.sub[0]") }, false},
 	}
 }
 
@@ -272,7 +273,7 @@ func init() {
 		ID:    "C11",
 		Level: "model_checking",
 		Rule: "45 call templates of the 15 builtins (every optional argument present/absent, identifier/attribute/string/expression arguments, all cast types, good and bad regular expressions, format strings with matching and mismatching verbs) " +
-			"x 5 key spellings (identifier, back-quoted, string literal, `_`, attribute expression) x 6 subject situations (variable only, field only, tag only, variable shadowing a field, variable shadowing a tag, absent) " +
+			"x 6 key spellings (identifier, back-quoted, string literal, `_`, attribute expression, attribute expression with an index) x 6 subject situations (variable only, field only, tag only, variable shadowing a field, variable shadowing a tag, absent) " +
 			"x 16 subject values (int, float, bool, plain/padded/url-encoded/undecodable/JSON/JSON with trailing text/numeric/empty strings, list, map, nil) x 3 base points; " +
 			"oracle: the whole canonical final point (so every other key is checked untouched), captured standard output, probe trace of return values and of three read-backs, error flag — all equal to the reference builtins",
 		Assumptions: []string{"strings, regexp, net/url, fmt, encoding/json and spf13/cast are the trusted base the reference shares with the code", "unspecified cells: cast of collections / non-numeric strings, cast to \"string\", rename onto an existing key, set_tag from a construct without value"},
